@@ -79,20 +79,28 @@ def empty_regions():
 
 
 class Env(object):
-    def __init__(self):
+    # file-name shapes: plain names, and valid names with further dots / blanks / upper case in the base name
+    NAMES = {'plain': {'src1': 'src1', 'src2': 'src2', 'code': 'code', 'out': 'out', 'sa': 'sparse_a', 'sb': 'sparse_b'},
+             'dotted': {'src1': 'sprites.v2', 'src2': 'game.1.0', 'code': 'main.min', 'out': 'my.cart.v3', 'sa': 'a.b', 'sb': '.hidden.b'},
+             'odd': {'src1': 'My Cart (1)', 'src2': 'SRC-2_final', 'code': 'code file', 'out': 'out put', 'sa': 'sp a', 'sb': 'SPB'}}
+
+    def __init__(self, names='plain'):
+        self.names = names
+        nm = self.NAMES[names]
+        self.outbase = nm['out']
         self.d = tempfile.mkdtemp(prefix='c13_')
         self.f = {'p8': fills(1), 'png': fills(2), 'prev-p8': fills(3), 'prev-png': fills(4)}
         self.label_p8 = carts.rot_region(0x2000, 77)
         self.rows = label_rows()
-        self.src_p8 = os.path.join(self.d, 'src1.p8')
-        self.src_png = os.path.join(self.d, 'src2.p8.png')
-        self.src_lua = os.path.join(self.d, 'code.lua')
+        self.src_p8 = os.path.join(self.d, nm['src1'] + '.p8')
+        self.src_png = os.path.join(self.d, nm['src2'] + '.p8.png')
+        self.src_lua = os.path.join(self.d, nm['code'] + '.lua')
         open(self.src_p8, 'wb').write(ref_p8(self.f['p8'], CODE['p8']))
         open(self.src_png, 'wb').write(ref_png(self.f['png'], CODE['png'], [bytes(640)] * 205))
         open(self.src_lua, 'wb').write(CODE['luafile'])
         # .p8 sources as PICO-8 saves carts whose other sections were never edited: those sections are left out
-        self.src_sparse_a = os.path.join(self.d, 'sparse_a.p8')     # __lua__ and __gfx__ only
-        self.src_sparse_b = os.path.join(self.d, 'sparse_b.p8')     # __lua__, __sfx__, __music__ only
+        self.src_sparse_a = os.path.join(self.d, nm['sa'] + '.p8')     # __lua__ and __gfx__ only
+        self.src_sparse_b = os.path.join(self.d, nm['sb'] + '.p8')     # __lua__, __sfx__, __music__ only
         fa = fills(6)
         open(self.src_sparse_a, 'wb').write(
             rc.P8_HEADER + b'version 33\n__lua__\n' + CODE['sparse'] + b'__gfx__\n' +
@@ -110,9 +118,9 @@ class Env(object):
 
     def prepare_out(self, state):
         ext = '.p8' if state.endswith('p8') else '.p8.png'
-        out = os.path.join(self.d, 'out' + ext)
+        out = os.path.join(self.d, self.outbase + ext)
         for e in ('.p8', '.p8.png'):
-            p = os.path.join(self.d, 'out' + e)
+            p = os.path.join(self.d, self.outbase + e)
             if os.path.exists(p):
                 os.unlink(p)
         before = None
@@ -181,6 +189,8 @@ def _run_build(env, assign, state, res, out, before, relative, tool):
     case = {'assign': list(assign), 'out': state}
     if relative:
         case['relative'] = relative
+    if env.names != 'plain':
+        case['names'] = env.names
     if any(c != 'none' for c in assign):
         res.nontriv((tuple(assign), state))
     try:
@@ -303,13 +313,14 @@ def assignments(max_spec):
 def shards(tier, seed):
     n = 32 if tier == 'quick' else 128
     items = [('assign', tier, k, n) for k in range(n)]
-    items += [('luafile', tier), ('errors', tier), ('resave', tier), ('sparse', tier), ('relpaths', tier)]
+    items += [('luafile', tier), ('errors', tier), ('resave', tier), ('sparse', tier), ('relpaths', tier),
+              ('names', tier, 'dotted'), ('names', tier, 'odd')]
     return items
 
 
 def run_shard(item):
     res = ShardResult()
-    env = Env()
+    env = Env(item[2] if item[0] == 'names' else 'plain')
     try:
         if item[0] == 'assign':
             _, tier, k, n = item
@@ -327,6 +338,13 @@ def run_shard(item):
                 for other in itertools.product(['none', 'p8', 'empty'], repeat=2):
                     assign = ['luafile', other[0], 'none', other[1], 'none', 'none']
                     run_build(env, assign, state, res)
+        elif item[0] == 'names':
+            for state in OUT_STATES:
+                for assign in (['none'] * 6, ['p8', 'none', 'png', 'none', 'empty', 'none'], ['luafile', 'png', 'none', 'p8', 'none', 'sparse'],
+                               ['png', 'p8', 'png', 'p8', 'png', 'p8'], ['none', 'sparse', 'none', 'none', 'none', 'empty']):
+                    run_build(env, assign, state, res)
+                    run_build(env, assign, state, res, relative='cwd')
+            res.sample({'names': item[2], 'files': sorted(os.listdir(env.d))[:6]})
         elif item[0] == 'relpaths':
             for rel in ('cwd', 'parent'):
                 for state in OUT_STATES:
@@ -369,7 +387,7 @@ def run_shard(item):
 
 def replay(case):
     res = ShardResult()
-    env = Env()
+    env = Env(case.get('names', 'plain'))
     try:
         if 'assign' in case:
             run_build(env, case['assign'], case['out'], res, relative=case.get('relative'))
